@@ -3,10 +3,11 @@
 boolean flips, off-by-one on small integer literals, removed negations), one at a time: those that still
 build and pass the unedited suite are run against the quick checks of the properties anchored in the
 mutated file; results go to seeded/MUTANTS.md (appended).  A surviving mutant is either equivalent (no
-behavioural change a property could see) or a gap; survivors are listed for triage.  /repo must be clean."""
+behavioural change a property could see) or a gap; survivors are listed for triage.  Works on a scratch worktree (VERIF_REPO)."""
 import json, os, random, re, subprocess, sys, concurrent.futures as cf
 os.environ["VERIF_EVIDENCE_DIR"] = "/verif/.build/seed-evidence"
-V, R = "/verif", "/repo"
+V = os.path.dirname(os.path.dirname(os.path.abspath(__file__)))
+R = "/tmp/mutwt-%d" % os.getpid()   # a scratch worktree of /repo: /repo itself is never touched
 ENV = dict(os.environ, GOFLAGS="-mod=mod", GOPROXY="off", GOSUMDB="off", GOTOOLCHAIN="local")
 def sh(cmd, cwd=None, timeout=900):
     try:
@@ -14,8 +15,9 @@ def sh(cmd, cwd=None, timeout=900):
     except subprocess.TimeoutExpired:
         class T: returncode = 124; stdout = ""; stderr = "timeout"
         return T()
-if sh("git -C /repo status --porcelain").stdout.strip():
-    print("REPO-NOT-CLEAN"); sys.exit(2)
+subprocess.run("git -C /repo worktree remove --force %s; rm -rf %s; git -C /repo worktree add -q --detach %s HEAD" % (R, R, R), shell=True, capture_output=True)
+ENV["VERIF_REPO"] = R
+ENV["VERIF_EVIDENCE_DIR"] = os.path.join(V, ".build", "seed-evidence")
 count = int(sys.argv[1]); seed = int(sys.argv[2]) if len(sys.argv) > 2 else 1
 filt = sys.argv[3] if len(sys.argv) > 3 else ""
 rnd = random.Random(seed)
@@ -92,7 +94,7 @@ for (f, i, a, b, rep, ri) in cands:
         print(tried, f, i + 1, status, "|", old.strip()[:70], "=>", rep, flush=True)
     finally:
         open(path, "w").write(orig)
-sh("git -C /repo checkout -- .")
+subprocess.run("git -C /repo worktree remove --force %s; rm -rf %s" % (R, R), shell=True, capture_output=True)
 with open(V + "/seeded/MUTANTS.md", "a") as out:
     out.write("\n## run seed=%d count=%d filter=%r\n\n| file | line | original | mutant | result |\n|---|---|---|---|---|\n" % (seed, count, filt))
     for r in rows:
